@@ -1,4 +1,173 @@
 package main
 
-// selftest: engines against built-in fixtures (filled in later).
-func selftest(verbose bool) error { return nil }
+// selftest: every engine against the conforming / violating fixtures in checker/fixtures/fx (DESIGN §1.4). Runs at the
+// start of every check (≈0.3 s). An engine that stops firing on its violating fixture — or starts firing on the
+// conforming one — makes the check abort with exit 2 and no verdict.
+
+import (
+	"fmt"
+	"go/token"
+	"go/types"
+	"os"
+	"path/filepath"
+	"strings"
+
+	"golang.org/x/tools/go/packages"
+	"golang.org/x/tools/go/ssa"
+	"golang.org/x/tools/go/ssa/ssautil"
+)
+
+func fixturesDir() string {
+	if v := os.Getenv("VERIF_FIXTURES"); v != "" {
+		return v
+	}
+	// next to the binary (<root>/bin/asherah-verif → <root>/checker/fixtures), independent of VERIF_ROOT
+	if exe, err := os.Executable(); err == nil {
+		d := filepath.Join(filepath.Dir(filepath.Dir(exe)), "checker", "fixtures")
+		if _, err := os.Stat(d); err == nil {
+			return d
+		}
+	}
+	return filepath.Join(verifRoot(), "checker", "fixtures")
+}
+
+func loadFixtures() (*Universe, error) {
+	env := append(baseEnv(), "GOWORK=off", "GOFLAGS=-mod=mod")
+	cfg := &packages.Config{Mode: packages.NeedName | packages.NeedFiles | packages.NeedCompiledGoFiles | packages.NeedImports | packages.NeedTypes |
+		packages.NeedSyntax | packages.NeedTypesInfo | packages.NeedTypesSizes, Dir: fixturesDir(), Env: env, Fset: token.NewFileSet()}
+	pkgs, err := packages.Load(cfg, "./fx")
+	if err != nil {
+		return nil, err
+	}
+	if len(pkgs) != 1 || len(pkgs[0].Errors) > 0 {
+		return nil, fmt.Errorf("fixtures do not load: %v", pkgs[0].Errors)
+	}
+	u := &Universe{Name: "fixtures", Fset: cfg.Fset, Pkgs: pkgs, ByPath: map[string]*packages.Package{pkgs[0].PkgPath: pkgs[0]}, SSAPkgs: map[string]*ssa.Package{}}
+	prog, sp := ssautil.Packages(pkgs, 0)
+	prog.Build()
+	u.Prog = prog
+	u.SSAPkgs[pkgs[0].PkgPath] = sp[0]
+	var add func(f *ssa.Function)
+	add = func(f *ssa.Function) {
+		if f == nil || f.Blocks == nil {
+			return
+		}
+		u.RepoFuncs = append(u.RepoFuncs, f)
+		for _, a := range f.AnonFuncs {
+			add(a)
+		}
+	}
+	for _, m := range sp[0].Members {
+		switch x := m.(type) {
+		case *ssa.Function:
+			add(x)
+		case *ssa.Type:
+			if n, ok := x.Type().(*types.Named); ok {
+				for i := 0; i < n.NumMethods(); i++ {
+					add(prog.FuncValue(n.Method(i)))
+				}
+			}
+		}
+	}
+	return u, nil
+}
+
+func selftest(verbose bool) error {
+	u, err := loadFixtures()
+	if err != nil {
+		return err
+	}
+	const fx = "fixtures/fx"
+	var fails []string
+	expect := func(name string, got, want bool) {
+		if verbose {
+			fmt.Printf("  %-34s fires=%v want=%v\n", name, got, want)
+		}
+		if got != want {
+			fails = append(fails, fmt.Sprintf("%s: engine fires=%v, expected %v", name, got, want))
+		}
+	}
+	// E-OWN
+	r := &ownRules{isRelease: closeRelease}
+	for _, tc := range []struct {
+		fn   string
+		leak bool
+	}{{"OwnOkDefer", false}, {"OwnOkReturn", false}, {"OwnBadErrorPath", true}, {"OwnBadSpill", true}} {
+		f := u.Func(fx, tc.fn)
+		if f == nil {
+			return fmt.Errorf("fixture %s missing", tc.fn)
+		}
+		leak := false
+		allInstrs(f, func(i ssa.Instruction) {
+			if g := staticCallee(i); g != nil && g.Name() == "newRes" {
+				for _, pr := range resultsOfType(i, func(t types.Type) bool { return isPtr(t) && typeIsNamed(t, fx, "Res") }) {
+					if !checkOwned(i, pr[0], pr[1], r).OK {
+						leak = true
+					}
+				}
+			}
+		})
+		expect("own/"+tc.fn, leak, tc.leak)
+	}
+	// E-LOCK
+	d := newLockDomain(u, fx, "Guarded", "mu")
+	for _, tc := range []struct {
+		fn  string
+		bad bool
+	}{{"OkInc", false}, {"inc", false}, {"OkRead", false}, {"BadWriteUnderRLock", true}, {"BadAfterUnlock", true}} {
+		f := u.Method(fx, "Guarded", tc.fn)
+		if f == nil {
+			return fmt.Errorf("fixture %s missing", tc.fn)
+		}
+		bad := false
+		for _, ga := range guardedAccesses(f, fx, "Guarded", map[string]bool{"n": true}, nil) {
+			st := d.stateAt(ga.Instr)
+			if (ga.Kind == accWrite && st != lsW) || (ga.Kind == accRead && (st == 0 || st&lsU != 0)) {
+				bad = true
+			}
+		}
+		expect("lock/"+tc.fn, bad, tc.bad)
+	}
+	// E-NIL / facts
+	nc := &nilChecker{u: u, cg: newCallGraph(u), visiting: map[string]bool{},
+		isSourceCall:  func(c *ssa.Call) bool { g := staticCallee(c); return g != nil && g.Name() == "load" },
+		isSourceField: func(base types.Type, field string) bool { return field == "Parent" && typeIsNamed(base, fx, "Rec") }}
+	for _, tc := range []struct {
+		fn  string
+		bad bool
+	}{{"NilOk", false}, {"helper", false}, {"NilBad", true}, {"NilBadAnd", true}} {
+		f := u.Func(fx, tc.fn)
+		if f == nil {
+			return fmt.Errorf("fixture %s missing", tc.fn)
+		}
+		bad := false
+		for _, s := range derefSites(f, func(t types.Type) bool { return typeIsNamed(t, fx, "Rec") && !isPtr(t) }) {
+			if v := nc.safeAt(s.Ptr, s.Instr.Block(), 0); !v.Safe {
+				bad = true
+			}
+		}
+		expect("nil/"+tc.fn, bad, tc.bad)
+	}
+	// E-CALL closure binding
+	cg := newCallGraph(u)
+	ra := cg.reachableFrom(u.Func(fx, "EntryA"))
+	expect("call/EntryA reaches secretA", ra[u.Func(fx, "secretA")] != nil, true)
+	expect("call/EntryA reaches secretB", ra[u.Func(fx, "secretB")] != nil, false)
+	// E-FLOW
+	for _, tc := range []struct {
+		fn  string
+		bad bool
+	}{{"FlowOk", false}, {"FlowBad", true}, {"FlowBadReturn", true}} {
+		f := u.Func(fx, tc.fn)
+		if f == nil || len(f.AnonFuncs) == 0 {
+			return fmt.Errorf("fixture %s missing", tc.fn)
+		}
+		t := &taintRun{u: u, notes: map[string]bool{}, seen: map[string]bool{}}
+		t.propagate(f.AnonFuncs[0].Params[0], "key bytes", true, 0)
+		expect("flow/"+tc.fn, len(t.findings) > 0, tc.bad)
+	}
+	if len(fails) > 0 {
+		return fmt.Errorf("%s", strings.Join(fails, "; "))
+	}
+	return nil
+}
